@@ -475,8 +475,13 @@ def r6_populate(ctx):
     if fn is None or outer is None:
         r.missing("Ranges::populate_with_new_key(::inner)")
     else:
-        t = flat(show(fn.body)) + flat(show(outer.body))
-        if not has(t, "count_key:new_key") or not has(t, "letvalue=value.populate(args,foreign_key,locale,key_path)?;values.push((range,value));") or not has(t, "letrange=Clone::clone(range);"):
+        from rules import absint
+        from rules.absint import AEval, C, CF, A, T, L, I
+        br = L(T(C("Exact", I(1)), A("v1")), T(C("Exact", I(2)), A("v2")), T(C("Fallback"), A("v3")))
+        v = AEval(funcs={}).run_fn(fn, [br, A("args"), A("fk"), A("locale"), A("kp")])
+        want = C("Ok", L(T(C("Exact", I(1)), A("v1.populate")), T(C("Exact", I(2)), A("v2.populate")), T(C("Fallback"), A("v3.populate"))))
+        t = flat(show(outer.body))
+        if v != want or not has(t, "count_key:new_key"):
             r.viol("R6:populate_with_new_key", "branches are not copied (same range, populated value, in order) under the new count key", file=fn.file, line=fn.line)
         else:
             r.inst("populate_with_new_key", "each (range, value) -> (range.clone(), value.populate(args)) pushed in order; count_key = new_key")
